@@ -1074,6 +1074,9 @@ def deductive(check, tier):
     from pyvc.verify import verify
     FK.find_key.probe = C03.find_key_probe
     verify(FK.find_key, tier, check, prefix="C08")
+    for c in FK.WRITERS:
+        c.probe = C03.writers_probe
+        verify(c, tier, check, prefix="C08")
     check.assume("deductive sub-result: Input._send.find_key's byte accounting for every buffer (the decoder as an uninterpreted function "
                  "of the bytes taken so far and `full`); everything else of C08 (queues, time, select, threads) is bounded only")
 
